@@ -33,13 +33,13 @@ def main():
     sh("git checkout -- . && git clean -fdq tests", cwd=wt)
     os.makedirs(os.path.join(wt, "tests"), exist_ok=True)
     shutil.copy(demo, os.path.join(wt, "tests", "demo.rs"))
-    c, o = sh("timeout 900 cargo test --offline --features ipnetwork,cidr --test demo 2>&1 | tail -15", cwd=wt)
+    c, o = sh("timeout 900 cargo test --offline --features ipnetwork,cidr,serde --test demo 2>&1 | tail -15", cwd=wt)
     ok_head = "test result: ok" in o and "FAILED" not in o
     meta["ran"].append({"cmd": "demo at HEAD", "passes": ok_head, "tail": o[-600:]})
     c, o = sh(f"git apply {patch}", cwd=wt)
     meta["ran"].append({"cmd": "git apply patch.diff", "ok": c == 0, "out": o[-300:]})
     applies = c == 0
-    c, o = sh("timeout 900 cargo test --offline --features ipnetwork,cidr --test demo 2>&1 | tail -25", cwd=wt)
+    c, o = sh("timeout 900 cargo test --offline --features ipnetwork,cidr,serde --test demo 2>&1 | tail -25", cwd=wt)
     demo_fails = ("FAILED" in o or "panicked" in o or c == 124 or "error" in o) and "test result: ok" not in o
     meta["ran"].append({"cmd": "demo with patch", "fails": demo_fails, "tail": o[-900:]})
     os.remove(os.path.join(wt, "tests", "demo.rs"))
